@@ -14,3 +14,8 @@ claim('C09',
       note="Trusted: harness/refs/folding.py. fold()/unfold() results are built with mask_corners=True, so the absent/fixed corner bits are forced masked in the oracle. Likelihood evaluation is checked only when some entry is unmasked in both spectra.",
       technique="property-based testing (Hypothesis) against explicit index-loop oracles and algebraic laws",
       design_ref="DESIGN.md 3/C09")
+claim('C10',
+      text="Generated spectra of 2-6 dimensions with unequal sample sizes, labels, folding and masks; marginalize/filter_pops, reorder_pops, combine_pops/combine_two_pops/Misc.combine_pops and scramble_pop_ids compared entry by entry with explicit re-indexing oracles, plus totals, label placement, input immutability and the commutation laws with project and fold that hold mathematically.",
+      note="Trusted: harness/refs/popindex.py. Marginalisation is compared on non-corner entries (dadi sums masked arrays, so masked corners are skipped). combine/scramble do not commute with projection of the merged axes mathematically, so only the laws that hold are asserted.",
+      technique="property-based testing (Hypothesis) against explicit re-indexing oracles",
+      design_ref="DESIGN.md 3/C10")
